@@ -244,6 +244,10 @@ func addParameterMetaInfo(segs []*routeSegment) []*routeSegment {
 			comparePart = segs[i].Const
 			if len(comparePart) > 1 {
 				comparePart = utils.TrimRight(comparePart, slashDelimiterStr)
+				// a constant made of slashes only still ends the parameter at its first slash
+				if comparePart == "" {
+					comparePart = string(slashDelimiter)
+				}
 			}
 		}
 	}
